@@ -14,6 +14,7 @@ import (
 	"strings"
 	"time"
 
+	"github.com/thushan/olla/internal/config"
 	"github.com/thushan/olla/internal/verif/h/lib/report"
 	"github.com/thushan/olla/internal/verif/h/lib/stack"
 )
@@ -89,9 +90,13 @@ type cfg struct {
 	sse                       bool
 	k                         int
 	noct                      bool // responses without a Content-Type header
+	pt                        bool // through the Anthropic route in passthrough mode (native endpoints) instead of /olla/proxy
 }
 
 func (c cfg) String() string {
+	if c.pt {
+		return fmt.Sprintf("engine=%s profile=%s balancer=%s sse=%v (no Content-Type header, Anthropic passthrough route) k=%d", c.engine, c.profile, c.balancer, c.sse, c.k)
+	}
 	if c.noct {
 		return fmt.Sprintf("engine=%s profile=%s balancer=%s sse=%v (no Content-Type header) k=%d", c.engine, c.profile, c.balancer, c.sse, c.k)
 	}
@@ -116,10 +121,11 @@ func main() {
 			for _, b := range balancers {
 				for _, sse := range []bool{false, true} {
 					for k := 1; k <= 3; k++ {
-						cfgs = append(cfgs, cfg{e, p, b, sse, k, false})
+						cfgs = append(cfgs, cfg{e, p, b, sse, k, false, false})
 					}
 					if !sse && p == "auto" {
-						cfgs = append(cfgs, cfg{e, p, b, sse, 2, true})
+						cfgs = append(cfgs, cfg{e, p, b, sse, 2, true, false})
+						cfgs = append(cfgs, cfg{e, p, b, sse, 2, true, true})
 					}
 				}
 			}
@@ -161,8 +167,12 @@ func runConfig(c cfg, fs []fault) {
 	var bes []*stack.Backend
 	var eps []stack.EP
 	for i := 0; i < c.k; i++ {
-		b := stack.NewBackend(string(letters[i]), "openai-compatible", true)
-		b.ModelsBody = func() []byte { return stack.OpenAIModels("m1") }
+		typ := "openai-compatible"
+		if c.pt {
+			typ = "vllm" // declares native Anthropic support: requests on the Anthropic route are passed through
+		}
+		b := stack.NewBackend(string(letters[i]), typ, true)
+		b.ModelsBody = func() []byte { return stack.ModelsFor(typ, "m1") }
 		bes = append(bes, b)
 		eps = append(eps, stack.EP{B: b, Priority: 300 - 100*i})
 	}
@@ -175,7 +185,8 @@ func runConfig(c cfg, fs []fault) {
 		for _, b := range bes {
 			b.Refuse(false)
 		}
-		o, err := stack.Boot(stack.Opts{Engine: c.engine, Balancer: c.balancer, Profile: c.profile, Endpoints: eps, ModelDiscovery: true})
+		o, err := stack.Boot(stack.Opts{Engine: c.engine, Balancer: c.balancer, Profile: c.profile, Endpoints: eps, ModelDiscovery: true,
+			Mutate: func(cf *config.Config) { cf.Translators.Anthropic.PassthroughEnabled = true }})
 		if err != nil {
 			res.Break("boot failed for %s: %v", c, err)
 			return nil
@@ -242,8 +253,13 @@ func runConfig(c cfg, fs []fault) {
 			}
 		}
 		body := []byte(`{"model":"m1","messages":[{"role":"user","content":"ping"}],"stream":` + fmt.Sprint(c.sse) + `}`)
-		r := stack.Do(o.Addr, &stack.Req{Method: "POST", Target: "/olla/proxy/v1/chat/completions", Body: body,
-			Headers: [][2]string{{"Content-Type", "application/json"}}})
+		target := "/olla/proxy/v1/chat/completions"
+		if c.pt {
+			target = "/olla/anthropic/v1/messages"
+			body = []byte(`{"model":"m1","max_tokens":16,"messages":[{"role":"user","content":"ping"}],"stream":` + fmt.Sprint(c.sse) + `}`)
+		}
+		r := stack.Do(o.Addr, &stack.Req{Method: "POST", Target: target, Body: body,
+			Headers: [][2]string{{"Content-Type", "application/json"}, {"anthropic-version", "2023-06-01"}}})
 		res.Add("evaluations", 1)
 		hit := judge(c, aname, bes, letters, r)
 		for i, b := range bes {
